@@ -194,7 +194,9 @@ def check(ctx, world):
             for a in list(c.args) + [k.value for k in c.keywords]:
                 av = world.static_lookup(mod, a.id) if isinstance(a, ast.Name) else None
                 if isinstance(av, FuncV) and av.qual in dedicated:
-                    isl = isinstance(tgt, FuncV) and gm.is_ladder_function(world, ev, tgt) and a in c.args[2:]
+                    isl = isinstance(tgt, FuncV) and gm.is_ladder_function(world, ev, tgt) and \
+                        (a in c.args[2:] or any(k.value is a and k.arg in [x.arg for x in tgt.node.args.args[2:] + tgt.node.args.kwonlyargs]
+                                                for k in c.keywords))
                     if isl:
                         fast_ladders.add(fq)
                     ctx.ob("P6-caller", "%s <- %s" % (av.qual, fq), isl,
@@ -208,6 +210,8 @@ def check(ctx, world):
             for c in ast.walk(node):
                 if isinstance(c, ast.Name) and c.id == dn and isinstance(c.ctx, ast.Load) and isinstance(world.static_lookup(mod, c.id), FuncV):
                     par = getattr(c, "_parent", None)
+                    if isinstance(par, ast.keyword):
+                        par = getattr(par, "_parent", None)
                     if isinstance(par, ast.Call) and (par.func is c or c in par.args or c in [k.value for k in par.keywords]):
                         continue
                     ctx.ob("P6-caller", "%s <- %s.%s" % (dq, mod.name, qual), False,
